@@ -10,6 +10,7 @@ import (
 
 	"github.com/hashicorp/hcl-lang/lang"
 	"github.com/hashicorp/hcl-lang/schema"
+	"github.com/hashicorp/hcl/v2/hclsyntax"
 	"github.com/zclconf/go-cty/cty"
 )
 
@@ -40,45 +41,65 @@ func runC05(run *Run, replay string) {
 			qs = append(qs, s.pathQueries(s.Main)...)
 			qs = append(qs, s.fileQueries(s.Main, s.File)...)
 			tbl := lcTable(s.Src)
-			for _, off := range append(cursorOffsets(r, s.Src, s.Kind == "directed", 12), callOffsets(s.Src)...) {
+			for _, off := range append(append(cursorOffsets(r, s.Src, s.Kind == "directed", 12), callOffsets(s.Src)...), labelOffsets(s)...) {
 				if pos, ok := tbl[off]; ok {
 					qs = append(qs, s.posQueries(s.Main, s.File, pos)...)
 				}
 			}
-			seq := make([]string, len(qs))
-			for i, q := range qs {
-				seq[i] = Show(outcomeS(safeCall(q.Name, q.Run)))
-			}
+			// the first concurrent round runs BEFORE anything was asked alone: a value computed lazily on first use
+			// and kept (a cache, a memoised field) is then first written by racing goroutines
 			loc := map[string]interface{}{"seed": run.Res.Seed, "base": bi, "scenario": si, "kind": s.Kind, "src": string(s.Src)}
-			for round := 0; round < rounds; round++ {
+			type bad struct {
+				q        Query
+				got, exp string
+			}
+			concurrent := func(round int, check func(i int, got string)) {
 				var wg sync.WaitGroup
-				var mu sync.Mutex
-				type bad struct {
-					q        Query
-					got, exp string
-				}
-				var bads []bad
 				for g := 0; g < G; g++ {
 					order := rand.New(rand.NewSource(subSeed(run.Res.Seed, bi*100000+si*1000+round*32+g))).Perm(len(qs))
 					wg.Add(1)
 					go func(order []int) {
 						defer wg.Done()
 						for _, i := range order {
-							got := Show(outcomeS(safeCall(qs[i].Name, qs[i].Run)))
-							if got != seq[i] {
-								mu.Lock()
-								bads = append(bads, bad{qs[i], got, seq[i]})
-								mu.Unlock()
-							}
+							check(i, Show(outcomeS(safeCall(qs[i].Name, qs[i].Run))))
 						}
 					}(order)
 				}
 				wg.Wait()
 				run.Res.Evaluations += G * len(qs)
-				for _, b := range bads {
-					run.Violate(Violation{Key: "C05/concurrent-differs/" + b.q.Name, Rule: "every concurrent result equals the result of the same query run alone",
-						Func: b.q.Name, Detail: firstDiff(b.exp, b.got), Replay: locWith(loc, b.q)})
+			}
+			var mu sync.Mutex
+			first := make([][]string, len(qs))
+			concurrent(0, func(i int, got string) {
+				mu.Lock()
+				first[i] = append(first[i], got)
+				mu.Unlock()
+			})
+			seq := make([]string, len(qs))
+			for i, q := range qs {
+				seq[i] = Show(outcomeS(safeCall(q.Name, q.Run)))
+			}
+			var bads []bad
+			for i := range qs {
+				for _, got := range first[i] {
+					if got != seq[i] {
+						bads = append(bads, bad{qs[i], got, seq[i]})
+						break
+					}
 				}
+			}
+			for round := 1; round < rounds; round++ {
+				concurrent(round, func(i int, got string) {
+					if got != seq[i] {
+						mu.Lock()
+						bads = append(bads, bad{qs[i], got, seq[i]})
+						mu.Unlock()
+					}
+				})
+			}
+			for _, b := range bads {
+				run.Violate(Violation{Key: "C05/concurrent-differs/" + b.q.Name, Rule: "every concurrent result equals the result of the same query run alone",
+					Func: b.q.Name, Detail: firstDiff(b.exp, b.got), Replay: locWith(loc, b.q)})
 			}
 			for _, q := range qs {
 				off := -1
@@ -147,4 +168,37 @@ func impliedScenario(r *rand.Rand) *Scenario {
 	w := newWorld()
 	pd := w.AddPath("root", sch, files, genFunctions(r))
 	return &Scenario{W: w, Main: pd, File: "a.tf", Src: []byte(files["a.tf"]), Kind: "implied-origins"}
+}
+
+// labelOffsets: a position inside every block label of the scenario's file (label completion consults the
+// dependent-body keys of the block schema)
+func labelOffsets(s *Scenario) []int {
+	var out []int
+	f := s.Main.Ctx.Files[s.File]
+	if f == nil {
+		return nil
+	}
+	body, ok := f.Body.(*hclsyntax.Body)
+	if !ok {
+		return nil
+	}
+	var walk func(b *hclsyntax.Body, d int)
+	walk = func(b *hclsyntax.Body, d int) {
+		if d > 4 {
+			return
+		}
+		for _, k := range b.Blocks {
+			for _, lr := range k.LabelRanges {
+				if lr.End.Byte-lr.Start.Byte >= 2 {
+					out = append(out, lr.Start.Byte+1)
+				}
+			}
+			walk(k.Body, d+1)
+		}
+	}
+	walk(body, 0)
+	if len(out) > 12 {
+		out = out[:12]
+	}
+	return out
 }
